@@ -1,5 +1,6 @@
 mod c01;
 mod c02;
+mod c03;
 mod c04;
 mod c05;
 mod c08;
@@ -72,6 +73,7 @@ fn main() {
         "C14" => c14::run(&mut rng, &mut out, &tier),
         "C15" => c15::run(&mut rng, &mut out, &tier),
         "C19" => c19::run(&mut rng, &mut out, &tier),
+        "C03" => c03::run(&mut rng, &mut out, &tier),
         "probe" => probe::run(),
         "C01" => c01::run(&mut rng, &mut out, &tier),
         _ => {
